@@ -977,7 +977,7 @@ SPECS = [
          state={"installed": ("installed", "cfg")}, state_names={"installed": "installed"},
          listener_loops={"listeners_copy": dict(method="config_change", fn="deliver {installed}", updates="installed",
                                                 args=["Z", "option nat", "option nat", "option cfg", "cfg"])}),
-    dict(group="Service", name="gen_add_custom", path="config/tracepoint_config.py", cls="TracepointConfigService", func="add_custom",
+    dict(group="Registry", name="gen_add_custom", path="config/tracepoint_config.py", cls="TracepointConfigService", func="add_custom",
          params="(polled : cfg) (hash : option nat) (last_update : Z) (custom_ids custom : list nat) (pending : list task) (fresh_handle : nat) (built : option nat)",
          ret="(list nat * list nat * list task) * option nat", args=["self", "path", "line", "args", "watches", "metrics"],
          env={"path": ("tt", "unit"), "line": ("tt", "unit"), "args": ("tt", "unit"), "watches": ("tt", "unit"), "metrics": ("tt", "unit")},
@@ -988,7 +988,7 @@ SPECS = [
          on_return=dict(value="Some %s", none="None", raises={"ValueError": "None"}),
          stmt_calls={"self.__trigger_update": dict(fn="gen_trigger_update polled hash last_update {pending}",
                                                    updates=["pending"], args=["option nat", "option cfg"])}),
-    dict(group="Service", name="gen_remove_custom", path="config/tracepoint_config.py", cls="TracepointConfigService", func="remove_custom",
+    dict(group="Registry", name="gen_remove_custom", path="config/tracepoint_config.py", cls="TracepointConfigService", func="remove_custom",
          params="(polled : cfg) (hash : option nat) (last_update : Z) (custom_ids custom : list nat) (pending : list task) (_id : nat)",
          ret="list nat * list nat * list task", args=["self", "_id"], falls_off=True, env={"_id": ("_id", "nat")},
          state={"self._custom_ids": ("custom_ids", "list nat"), "self._custom": ("custom", "list nat"), "pending": ("pending", "list task")},
@@ -1058,6 +1058,7 @@ GROUPS = {           # generated file -> (imports, which properties' theorems ar
     "Frames": ("From Deep Require Import Base PureSupport.", ["C19", "C02"]),
     "Store": ("From Deep Require Import Base Attrs PureSupport.", ["C18"]),
     "Service": ("From Deep Require Import Base ConfigSvc PureSupport.", ["C12", "C13"]),
+    "Registry": ("From Deep Require Import Base ConfigSvc PureSupport.\nFrom DeepGen Require Import PService.", ["C13"]),
     "Callbacks": ("From Deep Require Import Base PureSupport.", ["C15"]),
     "Metrics": ("From Deep Require Import Base Config PureSupport.", ["C17"]),
     "Hooks": ("From Deep Require Import Base Lifecycle PureSupport.", ["C14"]),
